@@ -99,6 +99,40 @@ pub fn request_spaces(_tier: Tier) -> Vec<CallSpace> {
             h: i as u8,
         }),
     ];
+    // Routing Information Update: pairs and chains of *structured* entries (contiguous and
+    // overlapping EID ranges, same / different bridge, every entry type): entries whose fields
+    // are related to their neighbours', which byte lanes over a background never are
+    {
+        fn structured(k: u64) -> [u8; 4] {
+            let mut ix = Ix(k);
+            let ty = [0x00u8, 0x01, 0x02, 0x03, 0xF3][ix.take(5) as usize];
+            let size = [0x00u8, 0x01, 0x04][ix.take(3) as usize];
+            let first = [0x10u8, 0x11, 0x14, 0x15][ix.take(4) as usize];
+            let addr = [0x40u8, 0x41][ix.take(2) as usize];
+            [ty, size, first, addr]
+        }
+        const NS: u64 = 5 * 3 * 4 * 2;
+        for via_new in [false, true] {
+            v.push(CallSpace::new(
+                &format!("routing_information_update: every ordered pair of {} structured entries via {}", NS, if via_new { "new()" } else { "new_from_buf()" }),
+                NS * NS,
+                move |i| EncCall::ReqRouting { entries: vec![structured(i / NS), structured(i % NS)], via_new },
+            ));
+            // chains of 2..=12 consecutive one-EID / four-EID ranges behind one bridge (8.. refused)
+            v.push(CallSpace::new(
+                &format!("routing_information_update: chains of contiguous ranges, 2..=12 entries x 4 types x 2 sizes via {}", if via_new { "new()" } else { "new_from_buf()" }),
+                11 * 4 * 2,
+                move |i| {
+                    let mut ix = Ix(i);
+                    let n = 2 + ix.take(11) as usize;
+                    let ty = ix.take(4) as u8;
+                    let size = [1u8, 4][ix.take(2) as usize];
+                    let entries = (0..n).map(|k| [ty, size, 0x10u8.wrapping_add(k as u8 * size), 0x40]).collect();
+                    EncCall::ReqRouting { entries, via_new }
+                },
+            ));
+        }
+    }
     // Routing Information Update: 0..=7 entries accepted (8..=12 refused)
     for count in 0..=12usize {
         let nbytes = 4 * count;
@@ -229,6 +263,27 @@ pub fn vendor_spaces(_tier: Tier, full_iana: bool) -> Vec<CallSpace> {
             msg: vec![],
         }));
     }
+    // self-similar content: the message starts with bytes of the packet's own framing (the type
+    // byte and/or the vendor id), which a "de-duplicating" encoder could mistake for a header
+    v.push(CallSpace::new("vendor_defined PCI: all 65 536 ids x message echoing [type, id] / [id] / [type]", 65536 * 3, move |i| {
+        let id = (i & 0xFFFF) as u32;
+        let (hi, lo) = ((id >> 8) as u8, id as u8);
+        let msg = match i >> 16 {
+            0 => vec![0x7E, hi, lo, 0xAA, 0x55],
+            1 => vec![hi, lo, 0x7E, hi, lo],
+            _ => vec![0x7E, 0x7E, hi],
+        };
+        EncCall::Vendor { fmt: 0, data: id, num: 3, msg }
+    }));
+    v.push(CallSpace::new("vendor_defined IANA: id lanes x 4 backgrounds x message echoing [type, id] / [id] / [type]", 256 * 4 * 4 * 3, move |i| {
+        let id = lane_bytes::<4>(i / 3, 4);
+        let msg = match i % 3 {
+            0 => [&[0x7Fu8][..], &id[..], &[0xAA, 0x55][..]].concat(),
+            1 => [&id[..], &[0x7F][..], &id[..]].concat(),
+            _ => vec![0x7F, 0x7F, id[0]],
+        };
+        EncCall::Vendor { fmt: 1, data: u32::from_be_bytes(id), num: 3, msg }
+    }));
     // bodies of every length that fits (0..=247 PCI, 0..=245 IANA) and a few beyond, walking contents
     for (fmt, max) in [(0u8, 247usize), (1u8, 245usize)] {
         let total: u64 = (0..=max + 3).map(body_contents).sum();
@@ -369,15 +424,31 @@ pub struct EncRun {
     pub out: EncOut,
     pub buf: Vec<u8>,
     pub flavour: u8,
+    /// the buffer as it was before the call (poison, possibly with a previous
+    /// packet at its start)
+    pub pre: Vec<u8>,
+}
+
+thread_local! {
+    /// Prior buffer content: when set, every buffer handed to an encoder starts
+    /// with these bytes (a packet left there by an earlier call) instead of poison.
+    static PREFILL: std::cell::RefCell<Option<Vec<u8>>> = const { std::cell::RefCell::new(None) };
+}
+
+pub fn set_prefill(p: Option<Vec<u8>>) {
+    PREFILL.with(|c| *c.borrow_mut() = p);
+}
+pub fn prefill_active() -> bool {
+    PREFILL.with(|c| c.borrow().is_some())
 }
 
 impl EncRun {
-    /// positions that differ from the poison
+    /// positions that differ from the buffer's previous content
     pub fn touched(&self) -> Option<(usize, usize)> {
         let mut first = None;
         let mut last = 0;
         for (i, b) in self.buf.iter().enumerate() {
-            if *b != enc_poison(i, self.flavour) {
+            if *b != self.pre[i] {
                 if first.is_none() {
                     first = Some(i);
                 }
@@ -390,8 +461,15 @@ impl EncRun {
 
 pub fn run_enc(ctx: &MCTPSMBusContext, call: &EncCall, dst: u8, size: usize, flavour: u8) -> EncRun {
     let mut buf: Vec<u8> = (0..size).map(|i| enc_poison(i, flavour)).collect();
+    PREFILL.with(|c| {
+        if let Some(p) = c.borrow().as_ref() {
+            let n = p.len().min(size);
+            buf[..n].copy_from_slice(&p[..n]);
+        }
+    });
+    let pre = buf.clone();
     let out = subject::encode(ctx, call, dst, &mut buf);
-    EncRun { out, buf, flavour }
+    EncRun { out, buf, flavour, pre }
 }
 
 /// Expected packet for a call on a context with the given address and stored
